@@ -81,8 +81,19 @@ def expected_circuit_keys(base_prog, n):
     return keys
 
 
-def run_tomography(n, prog, vin, env, acc, order=None):
+def run_tomography(n, prog, vin, env, acc, order=None, threshold=None):
+    """threshold: run with the global sampler truncation threshold set to this value - the tomography works on the
+    frequencies the callback returns and must not depend on an emulator setting."""
+    if threshold is not None:
+        old = lw.settings.sampler_probability_threshold
+        lw.settings.sampler_probability_threshold = threshold
+        try:
+            return run_tomography(n, prog, vin, env, acc, order)
+        finally:
+            lw.settings.sampler_probability_threshold = old
     case = {"n_qubits": n, "prog": prog, "input": vin, "order": order, "seed": env.seed}
+    if lw.settings.sampler_probability_threshold != 1e-9:
+        case["sampler_probability_threshold"] = lw.settings.sampler_probability_threshold
     base = tomo.build_base(n, prog)
     fp0 = full_fingerprint(base)
     psi, nrm = tomo.qubit_state(base, n, vin)
@@ -227,8 +238,10 @@ def run(tier, seed):
         if js and js[0] is jobs[0]:
             for n, prog, edit, vin in reuse:
                 run_reuse(n, prog, edit, vin, env, acc)
-        for n, prog, vin, order in js:
+        for k, (n, prog, vin, order) in enumerate(js):
             run_tomography(n, prog, vin, env, acc, order)
+            if order is None and k % 4 == 0:
+                run_tomography(n, prog, vin, env, acc, order, threshold=0.05)
         if js:
             acc.sample({"n_qubits": js[0][0], "prog": js[0][1], "input": js[0][2], "callback_order": js[0][3]}, limit=1)
         return acc
@@ -261,4 +274,5 @@ def replay(w, acc):
                   Env(case.get("seed", 0)), acc)
         return
     order = tuple(case["order"]) if case.get("order") is not None else None
-    run_tomography(case["n_qubits"], prog, tuple(case["input"]), Env(case.get("seed", 0)), acc, order)
+    run_tomography(case["n_qubits"], prog, tuple(case["input"]), Env(case.get("seed", 0)), acc, order,
+                   threshold=case.get("sampler_probability_threshold"))
